@@ -305,6 +305,7 @@ class SolveLog:
         self.S = S
         self.symbolic = symbolic
         self.entries = []  # dicts: matrix, data, clp, residual, fn
+        self.memo = {}
 
     def make(self, name, real_fn):
         def residual_function(matrix, data):
@@ -312,11 +313,14 @@ class SolveLog:
             M = np.asarray(matrix, dtype=object) if self.symbolic else np.asarray(matrix)
             d = np.asarray(data, dtype=object) if self.symbolic else np.asarray(data)
             if self.symbolic:
-                # C01 contract of the residual functions: clp arbitrary (fresh), residual = data - matrix @ clp
+                # C01 contract of the residual functions: clp arbitrary (fresh), residual = data - matrix @ clp.
+                # The function is deterministic: the same (matrix, data) yields the same clp symbols.
+                key = (name, M.shape, tuple(_key(v) for v in M.reshape(-1)), tuple(_key(v) for v in d.reshape(-1)))
+                k0 = self.memo.setdefault(key, k)
                 n = M.shape[1]
                 clp = np.empty(n, dtype=object)
                 for j in range(n):
-                    clp[j] = self.S.named(f"c!{k}_{j}")
+                    clp[j] = self.S.named(f"c!{k0}_{j}")
                 res = np.empty(M.shape[0], dtype=object)
                 for i in range(M.shape[0]):
                     acc = d[i]
@@ -330,6 +334,14 @@ class SolveLog:
             return clp, res
 
         return residual_function
+
+
+def _key(v):
+    import z3
+
+    if type(v) is SymReal:
+        return z3.simplify(v.t).sexpr()
+    return repr(float(v))
 
 
 class residual_stubs:
